@@ -364,13 +364,13 @@ macro_rules! h_zero {
 }
 
 // ==== Bvf x Bvf (different word counts) ======================================================
-// h_six!(c20_q_add_f8x2_f8x3, 5, f8x2(anylen(16)), df8x2, f8x3(anylen(24)), df8x3, +, +=, any, w_sym);
-// h_six!(c20_q_sub_f8x2_f8x3, 5, f8x2(anylen(16)), df8x2, f8x3(anylen(24)), df8x3, -, -=, any, w_sym);
-// h_six!(c20_q_and_f8x2_f8x3, 5, f8x2(anylen(16)), df8x2, f8x3(anylen(24)), df8x3, &, &=, any, w_sym);
-// h_six!(c20_q_or_f8x2_f8x3, 5, f8x2(anylen(16)), df8x2, f8x3(anylen(24)), df8x3, |, |=, any, w_sym);
-// h_six!(c20_q_xor_f8x2_f8x3, 5, f8x2(anylen(16)), df8x2, f8x3(anylen(24)), df8x3, ^, ^=, any, w_sym);
-// h_six!(c20_q_mul_f8x2l16_f8x3l24, 6, f8x2(16), df8x2, f8x3(24), df8x3, *, *=, any, w_val);
-// h_six!(c20_q_mul_f8x2l6_f8x3l5, 6, f8x2(6), df8x2, f8x3(5), df8x3, *, *=, any, w_val);
+h_six!(c20_q_add_f8x2_f8x3, 5, f8x2(anylen(16)), df8x2, f8x3(anylen(24)), df8x3, +, +=, any, w_sym);
+h_six!(c20_q_sub_f8x2_f8x3, 5, f8x2(anylen(16)), df8x2, f8x3(anylen(24)), df8x3, -, -=, any, w_sym);
+h_six!(c20_q_and_f8x2_f8x3, 5, f8x2(anylen(16)), df8x2, f8x3(anylen(24)), df8x3, &, &=, any, w_sym);
+h_six!(c20_q_or_f8x2_f8x3, 5, f8x2(anylen(16)), df8x2, f8x3(anylen(24)), df8x3, |, |=, any, w_sym);
+h_six!(c20_q_xor_f8x2_f8x3, 5, f8x2(anylen(16)), df8x2, f8x3(anylen(24)), df8x3, ^, ^=, any, w_sym);
+h_six!(c20_q_mul_f8x2l16_f8x3l24, 6, f8x2(16), df8x2, f8x3(24), df8x3, *, *=, any, w_val);
+h_six!(c20_q_mul_f8x2l6_f8x3l5, 6, f8x2(6), df8x2, f8x3(5), df8x3, *, *=, any, w_val);
 h_six!(c20_t_mul_f8x2l11_f8x3l9, 6, f8x2(11), df8x2, f8x3(9), df8x3, *, *=, any, w_val);
 h_pair!(c20_t_div_oo_f8x2l4_f8x3l3, 6, oo, f8x2(4), df8x2, f8x3(3), df8x3, /, /=, nz, w_val);
 h_pair!(c20_t_div_or_f8x2l4_f8x3l3, 6, or, f8x2(4), df8x2, f8x3(3), df8x3, /, /=, nz, w_val);
@@ -379,7 +379,6 @@ h_pair!(c20_t_div_ao_f8x2l4_f8x3l3, 6, ao, f8x2(4), df8x2, f8x3(3), df8x3, /, /=
 h_pair!(c20_t_div_ar_f8x2l4_f8x3l3, 6, ar, f8x2(4), df8x2, f8x3(3), df8x3, /, /=, nz, w_val);
 h_pair!(c20_t_rem_oo_f8x2l4_f8x3l3, 6, oo, f8x2(4), df8x2, f8x3(3), df8x3, %, %=, nz, w_val);
 h_pair!(c20_t_rem_or_f8x2l4_f8x3l3, 6, or, f8x2(4), df8x2, f8x3(3), df8x3, %, %=, nz, w_val);
-h_pair!(c20_t_rem_ro_f8x2l4_f8x3l3, 6, ro, f8x2(4), df8x2, f8x3(3), df8x3, %, %=, nz, w_val);
 h_pair!(c20_t_rem_ao_f8x2l4_f8x3l3, 6, ao, f8x2(4), df8x2, f8x3(3), df8x3, %, %=, nz, w_val);
 h_pair!(c20_t_rem_ar_f8x2l4_f8x3l3, 6, ar, f8x2(4), df8x2, f8x3(3), df8x3, %, %=, nz, w_val);
 h_six!(c20_t_add_f16x2_f8x3, 6, f16x2(anylen(32)), df16x2, f8x3(anylen(24)), df8x3, +, +=, any, w_sym);
@@ -393,17 +392,13 @@ h_six!(c20_t_or_f64x2_f64x2, 4, f64x2(anylen(128)), df64x2, f64x2(anylen(128)), 
 h_six!(c20_t_xor_f16x2_f8x3, 6, f16x2(anylen(32)), df16x2, f8x3(anylen(24)), df8x3, ^, ^=, any, w_sym);
 h_six!(c20_t_xor_f64x2_f64x2, 4, f64x2(anylen(128)), df64x2, f64x2(anylen(128)), df64x2, ^, ^=, any, w_sym);
 // ==== Bvf x native integer (+ "x directly" versus "vector built from x") ========================
-// h_six_int!(c20_q_add_f8x2_u32, 10, f8x2(anylen(16)), df8x2, iu32(), du32, v_f32, +, +=, any, w_sym);
-// h_six_int!(c20_q_sub_f8x2_u32, 10, f8x2(anylen(16)), df8x2, iu32(), du32, v_f32, -, -=, any, w_sym);
-// h_six_int!(c20_q_and_f8x2_u32, 10, f8x2(anylen(16)), df8x2, iu32(), du32, v_f32, &, &=, any, w_sym);
-// h_six_int!(c20_q_or_f8x2_u32, 10, f8x2(anylen(16)), df8x2, iu32(), du32, v_f32, |, |=, any, w_sym);
-// h_six_int!(c20_q_xor_f8x2_u32, 10, f8x2(anylen(16)), df8x2, iu32(), du32, v_f32, ^, ^=, any, w_sym);
-// h_six_int!(c20_q_mul_f8x2l16_u32, 10, f8x2(16), df8x2, iu32(), du32, v_f32, *, *=, any, w_val);
+h_six_int!(c20_q_add_f8x2_u32, 10, f8x2(anylen(16)), df8x2, iu32(), du32, v_f32, +, +=, any, w_sym);
+h_six_int!(c20_q_sub_f8x2_u32, 10, f8x2(anylen(16)), df8x2, iu32(), du32, v_f32, -, -=, any, w_sym);
+h_six_int!(c20_q_and_f8x2_u32, 10, f8x2(anylen(16)), df8x2, iu32(), du32, v_f32, &, &=, any, w_sym);
+h_six_int!(c20_q_or_f8x2_u32, 10, f8x2(anylen(16)), df8x2, iu32(), du32, v_f32, |, |=, any, w_sym);
+h_six_int!(c20_q_xor_f8x2_u32, 10, f8x2(anylen(16)), df8x2, iu32(), du32, v_f32, ^, ^=, any, w_sym);
+h_six_int!(c20_q_mul_f8x2l16_u32, 10, f8x2(16), df8x2, iu32(), du32, v_f32, *, *=, any, w_val);
 h_six_int!(c20_t_mul_f8x2l6_u32, 10, f8x2(6), df8x2, iu32(), du32, v_f32, *, *=, any, w_val);
-h_pair!(c20_t_div_oo_f8x2l4_u8, 10, oo, f8x2(4), df8x2, iu8(), du8, /, /=, nz, w_val);
-h_pair!(c20_t_div_ar_f8x2l4_u8, 10, ar, f8x2(4), df8x2, iu8(), du8, /, /=, nz, w_val);
-h_pair!(c20_t_rem_oo_f8x2l4_u8, 10, oo, f8x2(4), df8x2, iu8(), du8, %, %=, nz, w_val);
-h_pair!(c20_t_rem_ar_f8x2l4_u8, 10, ar, f8x2(4), df8x2, iu8(), du8, %, %=, nz, w_val);
 h_six_int!(c20_t_add_f8x2_u8, 10, f8x2(anylen(16)), df8x2, iu8(), du8, v_f8, +, +=, any, w_sym);
 h_six_int!(c20_t_add_f64x2_u128, 6, f64x2(anylen(128)), df64x2, iu128(), du128, v_f128, +, +=, any, w_sym);
 h_six_int!(c20_t_sub_f8x2_u8, 10, f8x2(anylen(16)), df8x2, iu8(), du8, v_f8, -, -=, any, w_sym);
@@ -414,45 +409,44 @@ h_six_int!(c20_t_or_f8x2_u8, 10, f8x2(anylen(16)), df8x2, iu8(), du8, v_f8, |, |
 h_six_int!(c20_t_or_f64x2_u128, 6, f64x2(anylen(128)), df64x2, iu128(), du128, v_f128, |, |=, any, w_sym);
 h_six_int!(c20_t_xor_f8x2_u8, 10, f8x2(anylen(16)), df8x2, iu8(), du8, v_f8, ^, ^=, any, w_sym);
 h_six_int!(c20_t_xor_f64x2_u128, 6, f64x2(anylen(128)), df64x2, iu128(), du128, v_f128, ^, ^=, any, w_sym);
-// h_six!(c20_q_shl_f8x2_u32, 8, f8x2(anylen(16)), df8x2, iu32(), du32, <<, <<=, any, w_sh);
-// h_six!(c20_q_shl_f8x2_usize, 8, f8x2(anylen(16)), df8x2, iusize(), dusize, <<, <<=, any, w_sh);
+h_six!(c20_q_shl_f8x2_u32, 8, f8x2(anylen(16)), df8x2, iu32(), du32, <<, <<=, any, w_sh);
+h_six!(c20_q_shl_f8x2_usize, 8, f8x2(anylen(16)), df8x2, iusize(), dusize, <<, <<=, any, w_sh);
 h_six!(c20_t_shl_f8x3_u8, 10, f8x3(anylen(24)), df8x3, iu8(), du8, <<, <<=, any, w_sh);
-h_six!(c20_t_shl_f64x2_u128, 8, f64x2(anylen(128)), df64x2, iu128(), du128, <<, <<=, any, w_sh);
 h_six!(c20_t_shl_f16x2_u16, 8, f16x2(anylen(32)), df16x2, iu16(), du16, <<, <<=, any, w_sh);
-// h_six!(c20_q_shr_f8x2_u32, 8, f8x2(anylen(16)), df8x2, iu32(), du32, >>, >>=, any, w_sh);
-// h_six!(c20_q_shr_f8x2_usize, 8, f8x2(anylen(16)), df8x2, iusize(), dusize, >>, >>=, any, w_sh);
+h_six!(c20_q_shr_f8x2_u32, 8, f8x2(anylen(16)), df8x2, iu32(), du32, >>, >>=, any, w_sh);
+h_six!(c20_q_shr_f8x2_usize, 8, f8x2(anylen(16)), df8x2, iusize(), dusize, >>, >>=, any, w_sh);
 h_six!(c20_t_shr_f8x3_u8, 10, f8x3(anylen(24)), df8x3, iu8(), du8, >>, >>=, any, w_sh);
 h_six!(c20_t_shr_f64x2_u128, 8, f64x2(anylen(128)), df64x2, iu128(), du128, >>, >>=, any, w_sh);
 h_six!(c20_t_shr_f16x2_u16, 8, f16x2(anylen(32)), df16x2, iu16(), du16, >>, >>=, any, w_sh);
 // ==== Bvd x Bvd (two allocated words each: spare word whenever len <= 64) =======================
-// h_six!(c20_q_add_bvd2_bvd2, 4, bvd2(anylen(128)), d2, bvd2(anylen(128)), d2, +, +=, any, w_sym);
+h_six!(c20_q_add_bvd2_bvd2, 4, bvd2(anylen(128)), d2, bvd2(anylen(128)), d2, +, +=, any, w_sym);
 h_six!(c20_t_add_bvd2_bvd3, 5, bvd2(anylen(128)), d2, bvd3(anylen(192)), d3, +, +=, any, w_sym);
-// h_six!(c20_q_sub_bvd2_bvd2, 4, bvd2(anylen(128)), d2, bvd2(anylen(128)), d2, -, -=, any, w_sym);
+h_six!(c20_q_sub_bvd2_bvd2, 4, bvd2(anylen(128)), d2, bvd2(anylen(128)), d2, -, -=, any, w_sym);
 h_six!(c20_t_sub_bvd2_bvd3, 5, bvd2(anylen(128)), d2, bvd3(anylen(192)), d3, -, -=, any, w_sym);
-// h_six!(c20_q_and_bvd2_bvd2, 4, bvd2(anylen(128)), d2, bvd2(anylen(128)), d2, &, &=, any, w_sym);
+h_six!(c20_q_and_bvd2_bvd2, 4, bvd2(anylen(128)), d2, bvd2(anylen(128)), d2, &, &=, any, w_sym);
 h_six!(c20_t_and_bvd2_bvd3, 5, bvd2(anylen(128)), d2, bvd3(anylen(192)), d3, &, &=, any, w_sym);
-// h_six!(c20_q_or_bvd2_bvd2, 4, bvd2(anylen(128)), d2, bvd2(anylen(128)), d2, |, |=, any, w_sym);
+h_six!(c20_q_or_bvd2_bvd2, 4, bvd2(anylen(128)), d2, bvd2(anylen(128)), d2, |, |=, any, w_sym);
 h_six!(c20_t_or_bvd2_bvd3, 5, bvd2(anylen(128)), d2, bvd3(anylen(192)), d3, |, |=, any, w_sym);
-// h_six!(c20_q_xor_bvd2_bvd2, 4, bvd2(anylen(128)), d2, bvd2(anylen(128)), d2, ^, ^=, any, w_sym);
+h_six!(c20_q_xor_bvd2_bvd2, 4, bvd2(anylen(128)), d2, bvd2(anylen(128)), d2, ^, ^=, any, w_sym);
 h_six!(c20_t_xor_bvd2_bvd3, 5, bvd2(anylen(128)), d2, bvd3(anylen(192)), d3, ^, ^=, any, w_sym);
-// h_six!(c20_q_mul_bvd2l6_bvd1l5, 6, bvd2(6), d2, bvd1(5), d1, *, *=, any, w_val);
-// h_six!(c20_q_mul_bvd2l100_bvd2l70, 6, bvd2(100), d2, bvd2(70), d2, *, *=, any, w_val);
+h_six!(c20_q_mul_bvd2l6_bvd1l5, 6, bvd2(6), d2, bvd1(5), d1, *, *=, any, w_val);
+h_six!(c20_q_mul_bvd2l100_bvd2l70, 6, bvd2(100), d2, bvd2(70), d2, *, *=, any, w_val);
 h_six!(c20_t_mul_bvd1l5_bvd2l7, 6, bvd1(5), d1, bvd2(7), d2, *, *=, any, w_val);
 h_pair!(c20_t_div_oo_bvd2l4_bvd1l3, 6, oo, bvd2(4), d2, bvd1(3), d1, /, /=, nz, w_val);
 h_pair!(c20_t_div_ar_bvd2l4_bvd1l3, 6, ar, bvd2(4), d2, bvd1(3), d1, /, /=, nz, w_val);
 h_pair!(c20_t_rem_oo_bvd2l4_bvd1l3, 6, oo, bvd2(4), d2, bvd1(3), d1, %, %=, nz, w_val);
 h_pair!(c20_t_rem_ar_bvd2l4_bvd1l3, 6, ar, bvd2(4), d2, bvd1(3), d1, %, %=, nz, w_val);
 // ==== Bvd x Bvf ==========================================================================
-// h_six!(c20_q_add_bvd2_f64x2, 4, bvd2(anylen(128)), d2, f64x2(anylen(128)), df64x2, +, +=, any, w_sym);
+h_six!(c20_q_add_bvd2_f64x2, 4, bvd2(anylen(128)), d2, f64x2(anylen(128)), df64x2, +, +=, any, w_sym);
 h_six!(c20_t_sub_bvd2_f64x2, 4, bvd2(anylen(128)), d2, f64x2(anylen(128)), df64x2, -, -=, any, w_sym);
 h_six!(c20_t_and_bvd2_f64x2, 4, bvd2(anylen(128)), d2, f64x2(anylen(128)), df64x2, &, &=, any, w_sym);
 h_six!(c20_t_or_bvd2_f64x2, 4, bvd2(anylen(128)), d2, f64x2(anylen(128)), df64x2, |, |=, any, w_sym);
 h_six!(c20_t_xor_bvd2_f64x2, 4, bvd2(anylen(128)), d2, f64x2(anylen(128)), df64x2, ^, ^=, any, w_sym);
-// h_pair!(c20_q_add_ar_bvd2_f8x2, 10, ar, bvd2(anylen(128)), d2, f8x2(anylen(16)), df8x2, +, +=, any, w_sym);
-// h_pair!(c20_q_xor_oo_bvd2_f8x2, 10, oo, bvd2(anylen(128)), d2, f8x2(anylen(16)), df8x2, ^, ^=, any, w_sym);
+h_pair!(c20_q_add_ar_bvd2_f8x2, 10, ar, bvd2(anylen(128)), d2, f8x2(anylen(16)), df8x2, +, +=, any, w_sym);
+h_pair!(c20_q_xor_oo_bvd2_f8x2, 10, oo, bvd2(anylen(128)), d2, f8x2(anylen(16)), df8x2, ^, ^=, any, w_sym);
 h_six!(c20_t_mul_bvd2l6_f8x2l5, 10, bvd2(6), d2, f8x2(5), df8x2, *, *=, any, w_val);
 // ==== Bvd x native integer ====================================================================
-// h_six_int!(c20_q_add_bvd2_u64, 4, bvd2(anylen(128)), d2, iu64(), du64, v_d64, +, +=, any, w_sym);
+h_six_int!(c20_q_add_bvd2_u64, 4, bvd2(anylen(128)), d2, iu64(), du64, v_d64, +, +=, any, w_sym);
 h_six_int!(c20_t_sub_bvd2_u64, 4, bvd2(anylen(128)), d2, iu64(), du64, v_d64, -, -=, any, w_sym);
 h_six_int!(c20_t_and_bvd2_u64, 4, bvd2(anylen(128)), d2, iu64(), du64, v_d64, &, &=, any, w_sym);
 h_six_int!(c20_t_or_bvd2_u64, 4, bvd2(anylen(128)), d2, iu64(), du64, v_d64, |, |=, any, w_sym);
@@ -461,57 +455,51 @@ h_six_int!(c20_t_mul_bvd2l6_u32, 6, bvd2(6), d2, iu32(), du32, v_d32, *, *=, any
 // ==== Bvd shifts: `&Bvd << k` / `&Bvd >> k` are separate implementations that allocate by length
 // quick: the separately implemented by-reference form against the in-place form at a length lattice;
 // thorough: all six forms at every lattice length, and a symbolic length.
-// h_pair!(c20_q_shl_ao_bvd2l1_usize, 6, ao, bvd2(1), d2, iusize(), dusize, <<, <<=, any, w_shc);
-// h_pair!(c20_q_shl_ao_bvd2l64_usize, 6, ao, bvd2(64), d2, iusize(), dusize, <<, <<=, any, w_shc);
-// h_pair!(c20_q_shl_ao_bvd2l65_usize, 6, ao, bvd2(65), d2, iusize(), dusize, <<, <<=, any, w_shc);
-// h_pair!(c20_q_shl_ao_bvd2l128_usize, 6, ao, bvd2(128), d2, iusize(), dusize, <<, <<=, any, w_shc);
+h_pair!(c20_q_shl_ao_bvd2l1_usize, 6, ao, bvd2(1), d2, iusize(), dusize, <<, <<=, any, w_shc);
+h_pair!(c20_q_shl_ao_bvd2l64_usize, 6, ao, bvd2(64), d2, iusize(), dusize, <<, <<=, any, w_shc);
+h_pair!(c20_q_shl_ao_bvd2l65_usize, 6, ao, bvd2(65), d2, iusize(), dusize, <<, <<=, any, w_shc);
+h_pair!(c20_q_shl_ao_bvd2l128_usize, 6, ao, bvd2(128), d2, iusize(), dusize, <<, <<=, any, w_shc);
 h_six!(c20_t_shl_bvd2l65_usize, 6, bvd2(65), d2, iusize(), dusize, <<, <<=, any, w_shc);
 h_six!(c20_t_shl_bvd2l128_usize, 6, bvd2(128), d2, iusize(), dusize, <<, <<=, any, w_shc);
 h_six!(c20_t_shl_bvd3l129_u32, 8, bvd3(129), d3, iu32(), du32, <<, <<=, any, w_shc);
-h_pair!(c20_t_shl_ao_bvd2_u64, 6, ao, bvd2(anylen(128)), d2, iu64(), du64, <<, <<=, any, w_sh);
-// h_pair!(c20_q_shr_ao_bvd2l1_usize, 6, ao, bvd2(1), d2, iusize(), dusize, >>, >>=, any, w_shc);
-// h_pair!(c20_q_shr_ao_bvd2l64_usize, 6, ao, bvd2(64), d2, iusize(), dusize, >>, >>=, any, w_shc);
-// h_pair!(c20_q_shr_ao_bvd2l65_usize, 6, ao, bvd2(65), d2, iusize(), dusize, >>, >>=, any, w_shc);
-// h_pair!(c20_q_shr_ao_bvd2l128_usize, 6, ao, bvd2(128), d2, iusize(), dusize, >>, >>=, any, w_shc);
+h_pair!(c20_q_shr_ao_bvd2l1_usize, 6, ao, bvd2(1), d2, iusize(), dusize, >>, >>=, any, w_shc);
+h_pair!(c20_q_shr_ao_bvd2l64_usize, 6, ao, bvd2(64), d2, iusize(), dusize, >>, >>=, any, w_shc);
+h_pair!(c20_q_shr_ao_bvd2l65_usize, 6, ao, bvd2(65), d2, iusize(), dusize, >>, >>=, any, w_shc);
+h_pair!(c20_q_shr_ao_bvd2l128_usize, 6, ao, bvd2(128), d2, iusize(), dusize, >>, >>=, any, w_shc);
 h_six!(c20_t_shr_bvd2l65_usize, 6, bvd2(65), d2, iusize(), dusize, >>, >>=, any, w_shc);
 h_six!(c20_t_shr_bvd2l128_usize, 6, bvd2(128), d2, iusize(), dusize, >>, >>=, any, w_shc);
 h_six!(c20_t_shr_bvd3l129_u32, 8, bvd3(129), d3, iu32(), du32, >>, >>=, any, w_shc);
-h_pair!(c20_t_shr_ao_bvd2_u64, 6, ao, bvd2(anylen(128)), d2, iu64(), du64, >>, >>=, any, w_sh);
 // ==== Bv x Bv, every pair of storage modes ========================================================
-// h_six!(c20_q_add_afix_afix, 4, bvfix(anylen(128)), afix, bvfix(anylen(128)), afix, +, +=, any, w_sym);
+h_six!(c20_q_add_afix_afix, 4, bvfix(anylen(128)), afix, bvfix(anylen(128)), afix, +, +=, any, w_sym);
 h_six!(c20_t_sub_afix_afix, 4, bvfix(anylen(128)), afix, bvfix(anylen(128)), afix, -, -=, any, w_sym);
-// h_six!(c20_q_and_afix_afix, 4, bvfix(anylen(128)), afix, bvfix(anylen(128)), afix, &, &=, any, w_sym);
+h_six!(c20_q_and_afix_afix, 4, bvfix(anylen(128)), afix, bvfix(anylen(128)), afix, &, &=, any, w_sym);
 h_six!(c20_t_or_afix_afix, 4, bvfix(anylen(128)), afix, bvfix(anylen(128)), afix, |, |=, any, w_sym);
 h_six!(c20_t_xor_afix_afix, 4, bvfix(anylen(128)), afix, bvfix(anylen(128)), afix, ^, ^=, any, w_sym);
 h_six!(c20_t_add_afix_adyn, 4, bvfix(anylen(128)), afix, bvdyn2(anylen(128)), adyn2, +, +=, any, w_sym);
-// h_six!(c20_q_sub_afix_adyn, 4, bvfix(anylen(128)), afix, bvdyn2(anylen(128)), adyn2, -, -=, any, w_sym);
+h_six!(c20_q_sub_afix_adyn, 4, bvfix(anylen(128)), afix, bvdyn2(anylen(128)), adyn2, -, -=, any, w_sym);
 h_six!(c20_t_and_afix_adyn, 4, bvfix(anylen(128)), afix, bvdyn2(anylen(128)), adyn2, &, &=, any, w_sym);
-// h_six!(c20_q_or_afix_adyn, 4, bvfix(anylen(128)), afix, bvdyn2(anylen(128)), adyn2, |, |=, any, w_sym);
+h_six!(c20_q_or_afix_adyn, 4, bvfix(anylen(128)), afix, bvdyn2(anylen(128)), adyn2, |, |=, any, w_sym);
 h_six!(c20_t_xor_afix_adyn, 4, bvfix(anylen(128)), afix, bvdyn2(anylen(128)), adyn2, ^, ^=, any, w_sym);
-// h_six!(c20_q_add_adyn_afix, 4, bvdyn2(anylen(128)), adyn2, bvfix(anylen(128)), afix, +, +=, any, w_sym);
+h_six!(c20_q_add_adyn_afix, 4, bvdyn2(anylen(128)), adyn2, bvfix(anylen(128)), afix, +, +=, any, w_sym);
 h_six!(c20_t_sub_adyn_afix, 4, bvdyn2(anylen(128)), adyn2, bvfix(anylen(128)), afix, -, -=, any, w_sym);
 h_six!(c20_t_and_adyn_afix, 4, bvdyn2(anylen(128)), adyn2, bvfix(anylen(128)), afix, &, &=, any, w_sym);
 h_six!(c20_t_or_adyn_afix, 4, bvdyn2(anylen(128)), adyn2, bvfix(anylen(128)), afix, |, |=, any, w_sym);
-// h_six!(c20_q_xor_adyn_afix, 4, bvdyn2(anylen(128)), adyn2, bvfix(anylen(128)), afix, ^, ^=, any, w_sym);
-// h_six!(c20_q_add_adyn_adyn, 4, bvdyn2(anylen(128)), adyn2, bvdyn2(anylen(128)), adyn2, +, +=, any, w_sym);
-// h_six!(c20_q_sub_adyn_adyn, 4, bvdyn2(anylen(128)), adyn2, bvdyn2(anylen(128)), adyn2, -, -=, any, w_sym);
+h_six!(c20_q_xor_adyn_afix, 4, bvdyn2(anylen(128)), adyn2, bvfix(anylen(128)), afix, ^, ^=, any, w_sym);
+h_six!(c20_q_add_adyn_adyn, 4, bvdyn2(anylen(128)), adyn2, bvdyn2(anylen(128)), adyn2, +, +=, any, w_sym);
+h_six!(c20_q_sub_adyn_adyn, 4, bvdyn2(anylen(128)), adyn2, bvdyn2(anylen(128)), adyn2, -, -=, any, w_sym);
 h_six!(c20_t_and_adyn_adyn, 4, bvdyn2(anylen(128)), adyn2, bvdyn2(anylen(128)), adyn2, &, &=, any, w_sym);
 h_six!(c20_t_or_adyn_adyn, 4, bvdyn2(anylen(128)), adyn2, bvdyn2(anylen(128)), adyn2, |, |=, any, w_sym);
 h_six!(c20_t_xor_adyn_adyn, 4, bvdyn2(anylen(128)), adyn2, bvdyn2(anylen(128)), adyn2, ^, ^=, any, w_sym);
 h_six!(c20_t_mul_afixl6_afixl5, 6, bvfix(6), afix, bvfix(5), afix, *, *=, any, w_val);
-h_pair!(c20_t_div_oo_afixl4_afixl3, 6, oo, bvfix(4), afix, bvfix(3), afix, /, /=, nz, w_val);
-h_pair!(c20_t_div_ar_afixl4_afixl3, 6, ar, bvfix(4), afix, bvfix(3), afix, /, /=, nz, w_val);
-h_pair!(c20_t_rem_oo_afixl4_afixl3, 6, oo, bvfix(4), afix, bvfix(3), afix, %, %=, nz, w_val);
-h_pair!(c20_t_rem_ar_afixl4_afixl3, 6, ar, bvfix(4), afix, bvfix(3), afix, %, %=, nz, w_val);
-// h_six!(c20_q_mul_afixl6_adynl5, 6, bvfix(6), afix, bvdyn1(5), adyn1, *, *=, any, w_val);
-// h_six!(c20_q_mul_adynl6_afixl5, 6, bvdyn1(6), adyn1, bvfix(5), afix, *, *=, any, w_val);
+h_six!(c20_q_mul_afixl6_adynl5, 6, bvfix(6), afix, bvdyn1(5), adyn1, *, *=, any, w_val);
+h_six!(c20_q_mul_adynl6_afixl5, 6, bvdyn1(6), adyn1, bvfix(5), afix, *, *=, any, w_val);
 h_six!(c20_t_mul_adynl6_adynl5, 6, bvdyn1(6), adyn1, bvdyn1(5), adyn1, *, *=, any, w_val);
 h_pair!(c20_t_div_oo_adynl4_adynl3, 6, oo, bvdyn1(4), adyn1, bvdyn1(3), adyn1, /, /=, nz, w_val);
 h_pair!(c20_t_div_ar_adynl4_adynl3, 6, ar, bvdyn1(4), adyn1, bvdyn1(3), adyn1, /, /=, nz, w_val);
 h_pair!(c20_t_rem_oo_adynl4_adynl3, 6, oo, bvdyn1(4), adyn1, bvdyn1(3), adyn1, %, %=, nz, w_val);
 h_pair!(c20_t_rem_ar_adynl4_adynl3, 6, ar, bvdyn1(4), adyn1, bvdyn1(3), adyn1, %, %=, nz, w_val);
 // ==== Bv x Bvf / Bvd (the remaining dispatch arms) ==================================================
-// h_six!(c20_q_add_afix_f64x2, 4, bvfix(anylen(128)), afix, f64x2(anylen(128)), df64x2, +, +=, any, w_sym);
+h_six!(c20_q_add_afix_f64x2, 4, bvfix(anylen(128)), afix, f64x2(anylen(128)), df64x2, +, +=, any, w_sym);
 h_six!(c20_t_add_afix_bvd2, 4, bvfix(anylen(128)), afix, bvd2(anylen(128)), d2, +, +=, any, w_sym);
 h_six!(c20_t_sub_afix_f64x2, 4, bvfix(anylen(128)), afix, f64x2(anylen(128)), df64x2, -, -=, any, w_sym);
 h_six!(c20_t_sub_afix_bvd2, 4, bvfix(anylen(128)), afix, bvd2(anylen(128)), d2, -, -=, any, w_sym);
@@ -520,7 +508,7 @@ h_six!(c20_t_and_afix_bvd2, 4, bvfix(anylen(128)), afix, bvd2(anylen(128)), d2, 
 h_six!(c20_t_or_afix_f64x2, 4, bvfix(anylen(128)), afix, f64x2(anylen(128)), df64x2, |, |=, any, w_sym);
 h_six!(c20_t_or_afix_bvd2, 4, bvfix(anylen(128)), afix, bvd2(anylen(128)), d2, |, |=, any, w_sym);
 h_six!(c20_t_xor_afix_f64x2, 4, bvfix(anylen(128)), afix, f64x2(anylen(128)), df64x2, ^, ^=, any, w_sym);
-// h_six!(c20_q_xor_afix_bvd2, 4, bvfix(anylen(128)), afix, bvd2(anylen(128)), d2, ^, ^=, any, w_sym);
+h_six!(c20_q_xor_afix_bvd2, 4, bvfix(anylen(128)), afix, bvd2(anylen(128)), d2, ^, ^=, any, w_sym);
 h_six!(c20_t_mul_afixl6_f8x2l5, 10, bvfix(6), afix, f8x2(5), df8x2, *, *=, any, w_val);
 h_six!(c20_t_mul_afixl6_bvd1l5, 6, bvfix(6), afix, bvd1(5), d1, *, *=, any, w_val);
 h_six!(c20_t_add_adyn_f64x2, 4, bvdyn2(anylen(128)), adyn2, f64x2(anylen(128)), df64x2, +, +=, any, w_sym);
@@ -532,55 +520,52 @@ h_six!(c20_t_and_adyn_bvd2, 4, bvdyn2(anylen(128)), adyn2, bvd2(anylen(128)), d2
 h_six!(c20_t_or_adyn_f64x2, 4, bvdyn2(anylen(128)), adyn2, f64x2(anylen(128)), df64x2, |, |=, any, w_sym);
 h_six!(c20_t_or_adyn_bvd2, 4, bvdyn2(anylen(128)), adyn2, bvd2(anylen(128)), d2, |, |=, any, w_sym);
 h_six!(c20_t_xor_adyn_f64x2, 4, bvdyn2(anylen(128)), adyn2, f64x2(anylen(128)), df64x2, ^, ^=, any, w_sym);
-// h_six!(c20_q_xor_adyn_bvd2, 4, bvdyn2(anylen(128)), adyn2, bvd2(anylen(128)), d2, ^, ^=, any, w_sym);
+h_six!(c20_q_xor_adyn_bvd2, 4, bvdyn2(anylen(128)), adyn2, bvd2(anylen(128)), d2, ^, ^=, any, w_sym);
 h_six!(c20_t_mul_adynl6_f8x2l5, 10, bvdyn1(6), adyn1, f8x2(5), df8x2, *, *=, any, w_val);
 h_six!(c20_t_mul_adynl6_bvd1l5, 6, bvdyn1(6), adyn1, bvd1(5), d1, *, *=, any, w_val);
 // ==== Bv x native integer ======================================================================
-// h_six_int!(c20_q_add_afix_u16, 6, bvfix(anylen(128)), afix, iu16(), du16, v_a16, +, +=, any, w_sym);
+h_six_int!(c20_q_add_afix_u16, 6, bvfix(anylen(128)), afix, iu16(), du16, v_a16, +, +=, any, w_sym);
 h_six_int!(c20_t_sub_afix_u16, 6, bvfix(anylen(128)), afix, iu16(), du16, v_a16, -, -=, any, w_sym);
 h_six_int!(c20_t_and_afix_u16, 6, bvfix(anylen(128)), afix, iu16(), du16, v_a16, &, &=, any, w_sym);
-// h_six_int!(c20_q_or_afix_u16, 6, bvfix(anylen(128)), afix, iu16(), du16, v_a16, |, |=, any, w_sym);
+h_six_int!(c20_q_or_afix_u16, 6, bvfix(anylen(128)), afix, iu16(), du16, v_a16, |, |=, any, w_sym);
 h_six_int!(c20_t_xor_afix_u16, 6, bvfix(anylen(128)), afix, iu16(), du16, v_a16, ^, ^=, any, w_sym);
 h_six_int!(c20_t_mul_afixl6_u16, 6, bvfix(6), afix, iu16(), du16, v_a16, *, *=, any, w_val);
 h_pair!(c20_t_div_oo_afixl4_u16, 6, oo, bvfix(4), afix, iu16(), du16, /, /=, nz, w_val);
 h_pair!(c20_t_div_ar_afixl4_u16, 6, ar, bvfix(4), afix, iu16(), du16, /, /=, nz, w_val);
-h_pair!(c20_t_rem_oo_afixl4_u16, 6, oo, bvfix(4), afix, iu16(), du16, %, %=, nz, w_val);
-h_pair!(c20_t_rem_ar_afixl4_u16, 6, ar, bvfix(4), afix, iu16(), du16, %, %=, nz, w_val);
-// h_six_int!(c20_q_add_adyn_u16, 6, bvdyn2(anylen(128)), adyn2, iu16(), du16, v_a16, +, +=, any, w_sym);
+h_six_int!(c20_q_add_adyn_u16, 6, bvdyn2(anylen(128)), adyn2, iu16(), du16, v_a16, +, +=, any, w_sym);
 h_six_int!(c20_t_sub_adyn_u16, 6, bvdyn2(anylen(128)), adyn2, iu16(), du16, v_a16, -, -=, any, w_sym);
 h_six_int!(c20_t_and_adyn_u16, 6, bvdyn2(anylen(128)), adyn2, iu16(), du16, v_a16, &, &=, any, w_sym);
-// h_six_int!(c20_q_or_adyn_u16, 6, bvdyn2(anylen(128)), adyn2, iu16(), du16, v_a16, |, |=, any, w_sym);
+h_six_int!(c20_q_or_adyn_u16, 6, bvdyn2(anylen(128)), adyn2, iu16(), du16, v_a16, |, |=, any, w_sym);
 h_six_int!(c20_t_xor_adyn_u16, 6, bvdyn2(anylen(128)), adyn2, iu16(), du16, v_a16, ^, ^=, any, w_sym);
 h_six_int!(c20_t_mul_adynl6_u16, 6, bvdyn1(6), adyn1, iu16(), du16, v_a16, *, *=, any, w_val);
 h_pair!(c20_t_div_oo_adynl4_u16, 6, oo, bvdyn1(4), adyn1, iu16(), du16, /, /=, nz, w_val);
 h_pair!(c20_t_div_ar_adynl4_u16, 6, ar, bvdyn1(4), adyn1, iu16(), du16, /, /=, nz, w_val);
 h_pair!(c20_t_rem_oo_adynl4_u16, 6, oo, bvdyn1(4), adyn1, iu16(), du16, %, %=, nz, w_val);
 h_pair!(c20_t_rem_ar_adynl4_u16, 6, ar, bvdyn1(4), adyn1, iu16(), du16, %, %=, nz, w_val);
-// h_pair!(c20_q_shl_ao_afix_u16, 6, ao, bvfix(anylen(128)), afix, iu16(), du16, <<, <<=, any, w_sh);
-// h_pair!(c20_q_shl_ro_adyn2l100_u16, 6, ro, bvdyn2(100), adyn2, iu16(), du16, <<, <<=, any, w_shc);
-h_six!(c20_t_shl_afix_u16, 6, bvfix(anylen(128)), afix, iu16(), du16, <<, <<=, any, w_sh);
+h_pair!(c20_q_shl_ao_afix_u16, 6, ao, bvfix(anylen(128)), afix, iu16(), du16, <<, <<=, any, w_sh);
+h_pair!(c20_q_shl_ro_adyn2l100_u16, 6, ro, bvdyn2(100), adyn2, iu16(), du16, <<, <<=, any, w_shc);
 h_six!(c20_t_shl_adyn2l64_u16, 6, bvdyn2(64), adyn2, iu16(), du16, <<, <<=, any, w_shc);
-// h_pair!(c20_q_shr_ao_afix_u16, 6, ao, bvfix(anylen(128)), afix, iu16(), du16, >>, >>=, any, w_sh);
-// h_pair!(c20_q_shr_ro_adyn2l100_u16, 6, ro, bvdyn2(100), adyn2, iu16(), du16, >>, >>=, any, w_shc);
+h_pair!(c20_q_shr_ao_afix_u16, 6, ao, bvfix(anylen(128)), afix, iu16(), du16, >>, >>=, any, w_sh);
+h_pair!(c20_q_shr_ro_adyn2l100_u16, 6, ro, bvdyn2(100), adyn2, iu16(), du16, >>, >>=, any, w_shc);
 h_six!(c20_t_shr_afix_u16, 6, bvfix(anylen(128)), afix, iu16(), du16, >>, >>=, any, w_sh);
 h_six!(c20_t_shr_adyn2l64_u16, 6, bvdyn2(64), adyn2, iu16(), du16, >>, >>=, any, w_shc);
 // ==== !a versus !&a ========================================================================
-// h_not!(c20_q_not_f8x2, 4, f8x2(anylen(16)), df8x2);
-// h_not!(c20_q_not_f64x2, 4, f64x2(anylen(128)), df64x2);
-// h_not!(c20_q_not_afix, 4, bvfix(anylen(128)), afix);
-// h_not!(c20_q_not_bvd2l0, 4, bvd2(0), d2);
-// h_not!(c20_q_not_bvd2l1, 4, bvd2(1), d2);
-// h_not!(c20_q_not_bvd2l64, 4, bvd2(64), d2);
-// h_not!(c20_q_not_bvd2l65, 4, bvd2(65), d2);
-// h_not!(c20_q_not_bvd2l128, 4, bvd2(128), d2);
+h_not!(c20_q_not_f8x2, 4, f8x2(anylen(16)), df8x2);
+h_not!(c20_q_not_f64x2, 4, f64x2(anylen(128)), df64x2);
+h_not!(c20_q_not_afix, 4, bvfix(anylen(128)), afix);
+h_not!(c20_q_not_bvd2l0, 4, bvd2(0), d2);
+h_not!(c20_q_not_bvd2l1, 4, bvd2(1), d2);
+h_not!(c20_q_not_bvd2l64, 4, bvd2(64), d2);
+h_not!(c20_q_not_bvd2l65, 4, bvd2(65), d2);
+h_not!(c20_q_not_bvd2l128, 4, bvd2(128), d2);
 h_not!(c20_t_not_bvd3l5, 5, bvd3(5), d3);
 h_not!(c20_t_not_bvd3l70, 5, bvd3(70), d3);
 h_not!(c20_t_not_bvd3l129, 5, bvd3(129), d3);
 h_not!(c20_t_not_bvd3l192, 5, bvd3(192), d3);
-// h_not!(c20_q_not_adyn2l70, 4, bvdyn2(70), adyn2);
+h_not!(c20_q_not_adyn2l70, 4, bvdyn2(70), adyn2);
 h_not!(c20_t_not_bvd2, 4, bvd2(anylen(128)), d2);
 // ==== zero divisor: every form panics =============================================================
-// h_zero!(c20_q_zero_f8x2_f8x3, 6, f8x2(anylen(16)), df8x2, anylen(24), 24, df8x3);
-// h_zero!(c20_q_zero_afix_afix, 6, bvfix(anylen(128)), afix, anylen(128), 128, afix);
+h_zero!(c20_q_zero_f8x2_f8x3, 6, f8x2(anylen(16)), df8x2, anylen(24), 24, df8x3);
+h_zero!(c20_q_zero_afix_afix, 6, bvfix(anylen(128)), afix, anylen(128), 128, afix);
 h_zero!(c20_t_zero_bvd2l9_bvd1l7, 6, bvd2(9), d2, 7, 64, d1);
 h_zero!(c20_t_zero_adyn1l9_afix, 6, bvdyn1(9), adyn1, anylen(128), 128, afix);
